@@ -7,7 +7,7 @@ CHECKS = {
                 "the while-loop is cut by an inductive invariant (with a progress/termination obligation), the stage-construction loop by a "
                 "family contract; postconditions state exact partition, order, adapter placement and the non-adaptive main stage.",
         "note": "floats in int(c*n) follow a monotone relative-error rounding model (not bit-exact); stager precondition "
-                "n_init_slow_window_iter>=1, multiplier>=1; string keys not modelled; z3 trusted.",
+                "n_init_slow_window_iter>=1, multiplier>=1; stage labels are modelled through the symbolic fields of their f-strings (pairwise distinct per window); z3 trusted.",
     },
 }
 CHECKS["C20"] = {
@@ -28,7 +28,8 @@ CHECKS["C06"] = {
     "text": "Each integrator's _step (and SymmetricCompositionIntegrator.__init__ for symbolic real free coefficients, n<=5 quick / 8 thorough) is symbolically executed "
             "against a contract stub of the system; postconditions: every Hamiltonian component is advanced by exactly time_step, the sub-step sequence is symmetric with "
             "equal adjoint times, coefficients are palindromic and sum to one, step() passes dir*step_size; the constrained inner loop is cut by an invariant for every n_inner_step.",
-    "note": "'consistent + symmetric => order 2 / energy error O(eps^2)' is a cited theorem (A9), not proved; in the trace obligations flows are contract stubs, their exactness and the "
+    "note": "for the explicit splitting integrators the second-order conditions (sum over ordered sub-step pairs of tau_i tau_j == t^2/2) are discharged from the traced times; for the implicit and constrained "
+            "schemes 'first-order map composed with its adjoint => order 2' remains a cited theorem (A9); energy error O(eps^2) follows from order 2 by the standard argument (cited); in the trace obligations flows are contract stubs, their exactness and the "
             "gradient consistency of the system's own Hamiltonian are imported from the C07 / C05 obligation sets (run as part of this check); "
             "number of free coefficients bounded (values unbounded); reals for floats.",
 }
@@ -51,7 +52,7 @@ CHECKS["C17"] = {
             "step-size search loop is cut by an invariant proving that it returns only at a log-2 crossing and raises only AdaptationError; Welford updates and the Chan merge are proved to "
             "maintain ghost batch sums (variance adapter: loop invariant over any number of chains, so the result is independent of split and order; covariance adapter: 1-3 chains), "
             "followed by exact regularisation, inverse metric and momentum refresh under the new metric.",
-    "note": "real arithmetic (numerical stability for large offsets NOT decided); arrays lifted component-wise (1 resp. 2 generic components); (1/m)^kappa and sqrt uninterpreted; matrix "
+    "note": "real arithmetic in the contracts; the large-offset clause is covered by a BOUNDED native check (offset 1e8, 9 partitions x 3 settings) only; arrays lifted component-wise (1 resp. 2 generic components); (1/m)^kappa and sqrt uninterpreted; matrix "
             "constructors and sample_momentum are contract stubs; precondition: every chain contributes >= 1 update.",
 }
 CHECKS["C04"] = {
@@ -126,14 +127,20 @@ CHECKS["C15"] = {
     "note": "worker/parent interrupt propagation through multiprocessing queues under A14 only; a second interrupt during clean-up is out of scope.",
 }
 CHECKS["C10"] = {
-    "engine": "symla",
-    "technique": "contract-based verification by exact symbolic execution of the real matrix classes: per class x operation postcondition view(result) == op(view(self)) over symbolic parameters, LAPACK primitives replaced by contract shims, equalities decided by sympy (rational-function identity) with exact-evaluation refutation",
-    "design_ref": "DESIGN.md section 7 C10 (revised: entrywise exact arrays at fixed shapes instead of the NC normal form)",
+    "engine": "symla+ncalg",
+    "technique": "contract-based deductive verification of the real matrix classes: class invariants and per-operation postconditions view(result) == op(view(self)); (Engine D) the real code executed on typed non-commutative "
+                 "polynomials over matrix atoms of SYMBOLIC dimension with contract stubs for operand matrices and LAPACK primitives, equalities discharged by rewriting with rules re-proved in Lean 4 / Mathlib; "
+                 "(Engine B) the same postconditions entrywise on exact symbolic arrays at fixed shapes, decided by sympy with exact-evaluation refutation",
+    "design_ref": "DESIGN.md section 7 C10, section 13 (Engine D)",
     "text": "Every matrix class and constructor option (signs, lower/upper, supplied vs lazily computed factors, implicit sizes) is instantiated with exact symbolic parameters; array, left/right "
             "products, transpose, inverse, diagonal, log|det|, eigendecomposition, square root, positive/negative scalar multiples, division and negation are compared with the dense view, "
             "recursively for derived objects (depth 2; lite second level in the quick tier) and for Matrix @ Matrix products. Loop-free code over fully symbolic inputs: each discharged "
-            "obligation holds for ALL real parameter values of that shape.",
-    "note": "shapes are fixed (dimension 1-3, rank-1 updates): dimension-genericity is not proved; LAPACK shim table, sympy and sign decisions of transcendental expressions by sampling are "
+            "obligation holds for ALL real parameter values of that shape. Engine D adds, for ALL dimensions: every method of MatrixProduct / SquareMatrixProduct / InvertibleMatrixProduct and of the three "
+            "low-rank update classes (Woodbury inverse, determinant lemma, Ambikasaran square root, stored-capacitance invariant, both signs, default / given inner matrix and capacitance) verified against the "
+            "interface CONTRACT of arbitrary operand matrices (modular: by induction over expression trees), and 32 leaf-class cases (identity, scaled identity, diagonal, triangular, inverse triangular, triangular "
+            "factored, dense definite / square / symmetric, orthogonal, eigendecomposed) on arrays of symbolic dimension; 21 rule-table lemmas type-checked by Lean against Mathlib on every run.",
+    "note": "Engine B shapes are fixed (dimension 1-3); Engine D is dimension-generic but abstracts entry-level code (diagonal(), packed-LU rescaling, block split/concatenate, SoftAbs elementwise functions stay with Engine B); "
+            "its shims record invertibility / definiteness hypotheses (the library's own preconditions); the correspondence between a rule name in vf/ncalg.py and its Lean statement is by reading; LAPACK shim table, sympy and sign decisions of transcendental expressions by sampling are "
             "trusted; obligations sympy cannot simplify but that vanish at all sampled points are reported as bounded (numeric-only), never as proved; floats as reals.",
 }
 CHECKS["C11"] = {
@@ -177,12 +184,13 @@ CHECKS["C07"] = {
     "note": "reals for floats; dimension 2; trig identities by sympy; dense metrics whose eigendecomposition comes from numpy eigh are represented by the eigendecomposed class.",
 }
 CHECKS["C08"] = {
-    "engine": "symla",
+    "engine": "symla+ncalg+pyvc",
     "technique": "contract-based verification by exact symbolic execution of the real sample_momentum methods and momentum transitions with a contract stub for the generator (symbolic standard-normal draws)",
     "design_ref": "DESIGN.md section 7 C08",
     "text": "sample_momentum of every system class and metric type returns exactly L z for the stub generator's symbolic draws z with L L^T == metric(position) (P M P^T and J M^-1 mom == 0 for constrained systems); "
             "independent refresh assigns one such draw; partial refresh returns a mom + c n with a^2 + c^2 == 1 for symbolic c in (0,1), a fresh draw for c == 1 or missing momentum, no change and no draw for c == 0; "
-            "the constructor rejects coefficients outside [0,1].",
+            "the constructor rejects coefficients outside [0,1]. Imported: the C10 contract sqrt @ sqrt.T == matrix for every positive definite class and derived object (Engine D for all dimensions, Engine B entrywise) "
+            "and the C17 obligation that the metric adapters redraw momenta under the metric the chain continues with.",
     "note": "Gaussian-law invariance follows from the proved linear-algebra postconditions by the standard facts that L z ~ N(0, L L^T) and that a p + c n with independent N(0,M) inputs and a^2+c^2=1 is N(0,M) (cited, A10); reals for floats; dimension 2; "
             "the reassigned-coefficient history is covered by the native replay and an explicit obligation.",
 }
